@@ -420,7 +420,7 @@ Lemma elect_version e w p h bc bu t1 t2 w' p' v g wr :
   elect e w p h bc bu t1 t2 = (w', p', EAcquired v, g, wr) ->
   v = clock e w' t2 /\ w_data w' = w_data w /\ p_lead p' = set_current (p_lead p) v.
 Proof.
-  unfold elect.
+  unfold elect, elect_f. cbn [tenv_of].
   set (g0 := do_get (w_lock w) (p_lock p) GOk (TOk (clock e w t1))).
   destruct (o_res g0) eqn:G; try discriminate.
   - set (ap := cas_holds (w_lock w) (lastVal (o_cand g0)) && negb (tso (o_cand g0) =? 0)).
@@ -473,7 +473,7 @@ Proof.
   - unfold serve at 1.
     set (out := do_op (w_data w) (deal (p_lead p)) o).
     set (w1 := bump (mkW (w_lock w) (d_store out) (w_commits w)) (d_commit out)).
-    set (p1 := mkP (p_lock p) (mkL (deal (p_lead p) + 1) (deal (p_lead p) + 1))).
+    set (p1 := mkP (p_lock p) (mkL (deal (p_lead p) + 1) (if deal (p_lead p) =? committed (p_lead p) then deal (p_lead p) + 1 else committed (p_lead p)))).
     specialize (IH w1 p1).
     destruct (serve_all w1 p1 tl) as [[w2 p2] rs].
     assert (Hd : w_data w1 = d_store out) by (subst w1; destruct (d_commit out); reflexivity).
@@ -498,7 +498,7 @@ Qed.
 Lemma elect_commits e w p h bc bu t1 t2 w' p' r g wr :
   elect e w p h bc bu t1 t2 = (w', p', r, g, wr) -> w_commits w <= w_commits w'.
 Proof.
-  unfold elect.
+  unfold elect, elect_f. cbn [tenv_of].
   set (g0 := do_get (w_lock w) (p_lock p) GOk (TOk (clock e w t1))).
   assert (B : forall a, w_commits w <= w_commits (bump w a)) by (intros [|]; simpl; lia).
   destruct (o_res g0) eqn:G.
@@ -518,7 +518,7 @@ Qed.
 Lemma elect_acquired_commits e w p h bc bu t1 t2 w' p' v g wr :
   elect e w p h bc bu t1 t2 = (w', p', EAcquired v, g, wr) -> w_commits w' = w_commits w + 1.
 Proof.
-  unfold elect.
+  unfold elect, elect_f. cbn [tenv_of].
   set (g0 := do_get (w_lock w) (p_lock p) GOk (TOk (clock e w t1))).
   destruct (o_res g0) eqn:G; try discriminate.
   - set (ap := cas_holds (w_lock w) (lastVal (o_cand g0)) && negb (tso (o_cand g0) =? 0)).
@@ -684,4 +684,73 @@ Proof.
   pose proof (admitted_above ls node0 node_inv0) as A.
   pose proof (node_inv_run ls node0 node_inv0) as I.
   destruct (nrun node0 ls) as [x os]. cbn [fst snd] in *. split; [apply flag_implies_installed; exact I|exact A].
+Qed.
+
+(* ---------- elections with a failing timestamp read after the lock write ---------- *)
+
+Lemma update_terr_not_ok st k h b : o_res (do_update st k h b COk TErr) <> ROk.
+Proof. unfold do_update. destruct (tso k =? 0); [discriminate|]. destruct (cas_holds st (lastVal k)); discriminate. Qed.
+Lemma create_terr_not_ok st k h b : o_res (do_create st k h b COk TErr) <> ROk.
+Proof. unfold do_create. destruct st; discriminate. Qed.
+
+(* if the timestamp read after the write fails, the acquiring call reports the error: no hand-over *)
+Lemma elect_f_acquired e w p h bc bu t1 t2 tf w' p' v g wr :
+  elect_f e w p h bc bu t1 t2 tf = (w', p', EAcquired v, g, wr) -> tf = false.
+Proof.
+  destruct tf; [|reflexivity]. unfold elect_f. cbn [tenv_of].
+  destruct (o_res (do_get (w_lock w) (p_lock p) GOk (TOk (clock e w t1)))); try discriminate.
+  - match goal with |- context [do_update ?a ?b ?c ?d COk TErr] => pose proof (update_terr_not_ok a b c d) as N;
+      destruct (o_res (do_update a b c d COk TErr)); try discriminate; congruence end.
+  - match goal with |- context [do_create ?a ?b ?c ?d COk TErr] => pose proof (create_terr_not_ok a b c d) as N;
+      destruct (o_res (do_create a b c d COk TErr)); try discriminate; congruence end.
+Qed.
+
+Lemma elect_f_data e w p h bc bu t1 t2 tf w' p' r g wr :
+  elect_f e w p h bc bu t1 t2 tf = (w', p', r, g, wr) -> w_data w' = w_data w.
+Proof.
+  unfold elect_f.
+  destruct (o_res (do_get (w_lock w) (p_lock p) GOk (TOk (clock e w t1)))).
+  - destruct (o_res (do_update _ _ h bu COk _)); try destruct (leader_version _);
+      intros H; injection H as <- _ _ _ _; cbn [w_data]; apply bump_data.
+  - destruct (o_res (do_create _ _ h bc COk _)); try destruct (leader_version _);
+      intros H; injection H as <- _ _ _ _; cbn [w_data]; apply bump_data.
+  - intros H; injection H as <- _ _ _ _; reflexivity.
+  - intros H; injection H as <- _ _ _ _; reflexivity.
+  - intros H; injection H as <- _ _ _ _; reflexivity.
+  - intros H; injection H as <- _ _ _ _; reflexivity.
+Qed.
+
+(* an election that does not acquire leaves the node's revision counters alone *)
+Lemma elect_f_lead e w p h bc bu t1 t2 tf w' p' r g wr :
+  elect_f e w p h bc bu t1 t2 tf = (w', p', r, g, wr) ->
+  (forall v, r <> EAcquired v) -> p_lead p' = p_lead p.
+Proof.
+  unfold elect_f.
+  destruct (o_res (do_get (w_lock w) (p_lock p) GOk (TOk (clock e w t1)))).
+  - destruct (o_res (do_update _ _ h bu COk _)); try destruct (leader_version _);
+      intros H; injection H as _ <- <- _ _; intros N; try reflexivity; exfalso; eapply N; reflexivity.
+  - destruct (o_res (do_create _ _ h bc COk _)); try destruct (leader_version _);
+      intros H; injection H as _ <- <- _ _; intros N; try reflexivity; exfalso; eapply N; reflexivity.
+  - intros H; injection H as _ <- _ _ _; reflexivity.
+  - intros H; injection H as _ <- _ _ _; reflexivity.
+  - intros H; injection H as _ <- _ _ _; reflexivity.
+  - intros H; injection H as _ <- _ _ _; reflexivity.
+Qed.
+
+(* tso.Commit raises the dealt counter to any larger committed value: a node that was synced to
+   revisions r_i as a follower (dealt counter = max r_i <> 0) and is then handed a version v at or
+   above them and above every stored revision deals from v exactly like a fresh node *)
+Lemma set_current_spec l v : deal (set_current l v) = N.max (deal l) v /\ committed (set_current l v) = v.
+Proof.
+  unfold set_current; cbn [deal committed]. split; [|reflexivity].
+  destruct (deal l <? v) eqn:L; [apply N.ltb_lt in L|apply N.ltb_ge in L]; lia.
+Qed.
+
+Lemma safe_if_ahead_follower d v l :
+  WF d -> dmax d <= v -> deal l <= v ->
+  set_current l v = mkL v v /\ Good d (deal (set_current l v)).
+Proof.
+  intros W D L. assert (E : set_current l v = mkL v v).
+  { unfold set_current. destruct (deal l <? v) eqn:Q; [reflexivity|]. apply N.ltb_ge in Q. f_equal. lia. }
+  split; [exact E|]. rewrite E. cbn [deal]. apply good_split. auto.
 Qed.
